@@ -285,6 +285,20 @@ def install():
             call[2] = ctx.nlines
 
     pg.PcfgGrammar.restore_omen = restore_omen
+    import lib_guesser.omen.markov_cracker as mcm
+    orig_next = mcm.MarkovCracker.next_guess
+
+    def next_guess(self):
+        g = orig_next(self)
+        ctx = _CUR[0]
+        if g is None and ctx is not None and ctx.trigger and ctx.trigger[0] == "level_end" and (
+                ctx.in_remainder or ctx.omen_start is not None):
+            # the user asks to quit while the generator is finding out that the level has no further string: after the
+            # last guess passed its exit check, before the loop sees the end
+            ctx.fire()
+        return g
+
+    mcm.MarkovCracker.next_guess = next_guess
     orig_rec = pg.PcfgGrammar._recursive_restore_prob_order
 
     def _recursive_restore_prob_order(self, *a, **kw):
